@@ -122,7 +122,9 @@ class Ctx:
 
 MONITOR_PREFIX = {}
 # monitors of other families that also decide a property in the scenarios of its own family
-EXTRA = {"C18": ["C01_ReadNext", "C14_SequenceNumber", "C02_Delivered", "C06_"]}
+EXTRA = {"C18": ["C01_ReadNext", "C14_SequenceNumber", "C02_Delivered", "C06_"],
+         # a certified deadlock of the real code is a violation of whichever of these properties' scenarios hit it
+         "C04": ["C09_Deadlock", "C09_NoLeak"]}
 CHECKS = {}
 
 
@@ -652,10 +654,21 @@ def c03(ctx):
 EXTRA["C03"] = ["C01_", "C02_Delivered", "C06_Genuine", "C06_AtMostOnce", "C17_WrongKindAbort"]
 
 
+def lifecycle_design(ctx):
+    """Lifecycle.tla (PlusCal): goroutine/lock/channel skeleton of one association; TLC checks the lock order
+    and `transport closed ~> every goroutine and caller done` under weak fairness. Bound to the code by outcomes:
+    its counterexamples are turned into driver scenarios (hs-late-after-fail) and every scenario of the crash /
+    storm / handshake families is watched for certified deadlocks and leaked goroutines."""
+    for c in (("q1", "q2", "q3", "q4") if ctx.quick else ("q1", "q2", "q3", "q4", "full")):
+        ctx.tlc_design("Lifecycle", "Lifecycle_%s.cfg" % c, workers=8 if ctx.quick else L.NCPU, timeout=7200, heap="16g" if c == "full" else "8g")
+
+
 @check("C09", ["C09_"])
 def c09(ctx):
     ctx.level = "fault_enumeration"
     binp = ctx.harness()
+    lifecycle_design(ctx)
+    hs = directed_traces(ctx, "hs-special", 1)
     out = ctx.scr.mkdir("crash")
     ps = L.run_shards(binp, "crash", out, 16, {"VF_NSHARDS": 16, "VF_STRIDE": 3 if ctx.quick else 1})
     crash_as_violation(ctx, ps, out, "crash", "C09_Panic")
@@ -669,7 +682,7 @@ def c09(ctx):
     ctx.notes.append("crash points: 5 base scenarios (handshake, transfer with loss, stream reset, graceful shutdown, blocked blocking writes) x DATA/I-DATA x "
                      "every %s wire event x {Close x3, Abort, read failure, write failure, transport close} x both sides, callers parked in connect, accept, "
                      "read, blocking write and shutdown" % ("third" if ctx.quick else "single"))
-    ctx.validate(files)
+    ctx.validate(files + hs)
 
 
 @check("C20", ["C20_"])
@@ -696,14 +709,14 @@ def c20(ctx):
         for line in open(f):
             if '"ev":"cfg"' in line:
                 ctx.distinct.add(("storm", json.loads(line)["label"]))
-    ctx.tlc_design("Lifecycle", "Lifecycle.cfg", timeout=1500, heap="12g") if os.path.exists(os.path.join(L.SPEC, "Lifecycle.cfg")) else None
+    lifecycle_design(ctx)
     ctx.validate(files)
     ctx.notes.append("storms: one writer per stream on 3-6 streams per side, accept/read goroutines per stream, observers calling every accessor, "
                      "re-entrant low-threshold callbacks, heartbeats, stream closes, then concurrent Shutdown/Close/Abort; free-running lossy network; "
                      "binary built with -race (a race report is reported as C20_DataRace: that is the Go race detector's verdict, not a TLA+ one)")
 
 
-EXTRA["C20"] = ["C09_CallsReturn", "C09_NoLeak", "C09_NoWriteAfterClose", "C01_", "C06_", "C18_", "C05_", "C12_", "C17_", "C14_SequenceNumber"]
+EXTRA["C20"] = ["C09_Deadlock", "C09_CallsReturn", "C09_NoLeak", "C09_NoWriteAfterClose", "C01_", "C06_", "C18_", "C05_", "C12_", "C17_", "C14_SequenceNumber"]
 
 
 @check("C10", ["C10_"])
